@@ -1,6 +1,6 @@
 #!/bin/bash
 # seedkeep.sh <Cxx> <mN> [base]  -- confirm a sub-agent's change in its scratch worktree and keep it under /verif/seeded/<Cxx>-<mN>
-id=$1; m=$2; base=${3:-/tmp/seed2}
+id=$1; m=$2; base=${3:-${SEEDKEEP_BASE:-/tmp/seed2}}
 export SEED_BASE=$base
 out=$base/out-$id/$m
 [ -f $out/patch.diff ] || { echo "no patch for $id $m"; exit 2; }
